@@ -170,7 +170,7 @@ def r_mat_orient(rep, f):
                 if not reads and not vecs and enum_loop is not None:
                     elems = {q["id"] for q in tast.find(enum_loop["pat"]["pats"][1:], lambda q: q.get("k") == "PBind")}
                     used = tast.find(asg["r"], lambda q: q.get("k") == "Path" and q.get("id") in elems)
-                    loop = next((p for p in reversed(parents) if p.get("k") == "For" and p["pat"].get("id") == mi[1]), None)
+                    loop = next((p for p in reversed(parents) if p.get("k") == "For" and tast.contains(p["pat"], lambda q: q.get("k") == "PBind" and q.get("id") == mi[1])), None)
                     pert = tast.find(loop["body"], lambda q: q.get("k") in ("Assign", "AssignOp") and _vec_index(q["l"]) is not None and _vec_index(q["l"])[1] == mi[1]) if loop is not None else []
                     if not used:
                         rep.violation("R-MAT-ORIENT", key, "`%s` is not assigned from the elements enumerated with the row index `%s`" % (tast.render(z), mi[2][0]), z.get("sp"))
@@ -186,7 +186,7 @@ def r_mat_orient(rep, f):
                 elif vecs:
                     # (c) finite differences: the vectors on the right are indexed by the row, and the column variable indexes the perturbed component
                     wrong = [v for v in vecs if v[1] != mi[0]]
-                    loop = next((p for p in reversed(parents) if p.get("k") == "For" and p["pat"].get("id") == mi[1]), None)
+                    loop = next((p for p in reversed(parents) if p.get("k") == "For" and tast.contains(p["pat"], lambda q: q.get("k") == "PBind" and q.get("id") == mi[1])), None)
                     pert = []
                     if loop is not None:
                         pert = tast.find(loop["body"], lambda q: q.get("k") in ("Assign", "AssignOp") and _vec_index(q["l"]) is not None and _vec_index(q["l"])[1] == mi[1])
